@@ -69,6 +69,7 @@ func init() {
 		"(*regexp.Regexp).ReplaceAllString": ext۰regexp۰ReplaceAllString,
 
 		"sort.Strings": ext۰sort۰Strings,
+		"sort.Slice":   ext۰sort۰Slice,
 
 		"sync/atomic.AddInt32":   ext۰atomic۰AddInt32,
 		"sync/atomic.AddInt64":   ext۰atomic۰AddInt64,
@@ -852,6 +853,23 @@ func ext۰sort۰Strings(fr *frame, args []value) value {
 	// symbolic elements: insertion sort, every comparison a solver-decided branch
 	for i := 1; i < len(x); i++ {
 		for j := i; j > 0 && fr.i.w.truth(strLess(x[j], x[j-1])); j-- {
+			x[j], x[j-1] = x[j-1], x[j]
+		}
+	}
+	return nil
+}
+
+// sort.Slice(x, less): insertion sort over the interpreted slice, every call of less interpreted
+// (the real one goes through internal/reflectlite). Deterministic, like any stable run of the
+// library's sort for a strict weak order.
+func ext۰sort۰Slice(fr *frame, args []value) value {
+	x, ok := args[0].(iface).v.([]value)
+	if !ok {
+		fr.i.w.unsupported("sort.Slice on a non-slice value")
+	}
+	less := args[1]
+	for i := 1; i < len(x); i++ {
+		for j := i; j > 0 && fr.i.w.truth(call(fr.i, fr, 0, less, []value{j, j - 1})); j-- {
 			x[j], x[j-1] = x[j-1], x[j]
 		}
 	}
